@@ -11,6 +11,11 @@ def build(chk):
     infscreen.row_frame_obligations(chk)
     chk.bounded_native("histories of add_row / read / print on both variants (internal size larger than requested)", "add_row", "5 constructions, 120 steps (quick) / 600 (thorough)", "aotools/turbulence/infinitephasescreen.py:PhaseScreen.add_row")
     chk.bounded_native("several screens of one geometry and different r0 in one process keep their own matrices", "multi", "3 screens", "aotools/turbulence/infinitephasescreen.py:PhaseScreen.makeBMatrix")
+    # the recursion clause (stationary covariance = the von Karman covariance) rests on the A / B identities: C04's contract is re-checked here
+    with chk.borrow("C04"):
+        chk.assumptions_used.update(["A-MATH", "A-JIT"])
+        infscreen.c04_obligations(chk)
+        chk.bounded_native("ill-conditioned parameters are refused (or still satisfy the identities): no screen with an unstable recursion can be constructed", "refuse", "2 constructions", "aotools/turbulence/infinitephasescreen.py:PhaseScreen.makeAMatrix")
     chk.notes.append("representation invariant I: _scrn.shape = (stencil_length, nx_size), requested <= nx_size <= stencil_length; established by both constructors, preserved by add_row, so the step "
                      "postcondition holds after ANY finite sequence of add_row / read operations (induction over the history, not enumeration)")
     chk.not_decided.append("only finite values (floating point)")
